@@ -570,3 +570,79 @@ pub fn run_rev(c: &RevCase) -> CaseRes {
         Err(e) => CaseRes { counters: cnt, nontrivial: false, result: vfail("C19", e), log: vec![], steps: 0 },
     }
 }
+
+// ------------------------------------------------------------------ large generated diffs (C16)
+
+#[derive(Clone, Debug, Serialize, Deserialize)]
+pub struct BigDiffCase {
+    pub len: u16,
+    pub alphabet: u16,
+    pub seed: u64,
+    /// edits applied to the old array to obtain the new one: (kind, position selector, value selector)
+    pub edits: Vec<(u8, u16, u16)>,
+    pub independent: bool,
+}
+
+pub fn bigdiff_strategy() -> BoxedStrategy<BigDiffCase> {
+    (prop_oneof![1 => 0u16..40, 3 => 90u16..320], prop_oneof![1 => 3u16..8, 2 => 300u16..600], any::<u64>(), vec((0u8..4, any::<u16>(), any::<u16>()), 0..12), prop::bool::weighted(0.15))
+        .prop_map(|(len, alphabet, seed, edits, independent)| BigDiffCase { len, alphabet, seed, edits, independent })
+        .boxed()
+}
+
+pub fn run_bigdiff(c: &BigDiffCase) -> CaseRes {
+    let mut s = c.seed;
+    let mk = |s: &mut u64, n: usize| -> Vec<Value> { (0..n).map(|_| Value::from(format!("x{}", crate::store::splitmix(s) % c.alphabet.max(1) as u64))).collect() };
+    let a = mk(&mut s, c.len as usize);
+    let mut b = if c.independent { mk(&mut s, (c.len as usize * 7) / 8 + 3) } else { a.clone() };
+    for (k, p, v) in &c.edits {
+        match k {
+            0 => {
+                let at = crate::gen::sel(*p, b.len() + 1);
+                b.insert(at, Value::from(format!("x{}", v % c.alphabet.max(1))));
+            }
+            1 => {
+                if !b.is_empty() {
+                    let at = crate::gen::sel(*p, b.len());
+                    b.remove(at);
+                }
+            }
+            2 => {
+                if b.len() > 1 {
+                    let from = crate::gen::sel(*p, b.len());
+                    let e = b.remove(from);
+                    let to = crate::gen::sel(*v, b.len() + 1);
+                    b.insert(to, e);
+                }
+            }
+            _ => {
+                if !b.is_empty() {
+                    let at = crate::gen::sel(*p, b.len());
+                    let n = (1 + (*v as usize % 5)).min(b.len() - at);
+                    b.drain(at..at + n);
+                }
+            }
+        }
+    }
+    let res = (|| -> Result<(), String> {
+        let patch = make_diff_patch(&a, &b).map_err(|e| e.to_string())?;
+        if patch.is_empty() != (a == b) {
+            return Err(format!("script empty = {} but arrays equal = {}", patch.is_empty(), a == b));
+        }
+        let mut x = a.clone();
+        apply_diff_patch(&mut x, &patch).map_err(|e| e.to_string())?;
+        if x != b {
+            return Err(format!("arrays of length {} -> {}: applying the script ({} ops) does not give the new array (first difference at {:?})", a.len(), b.len(), patch.len(), x.iter().zip(b.iter()).position(|(p, q)| p != q)));
+        }
+        let mut y = a.clone();
+        model::ref_apply(&mut y, &patch)?;
+        if y != b {
+            return Err("reference applier disagrees".into());
+        }
+        Ok(())
+    })();
+    let nontrivial = a.len() >= 100 && b.len() >= 100 && a != b;
+    match res {
+        Ok(()) => CaseRes { counters: Counters::new(), nontrivial, result: Ok(()), log: vec![], steps: 1 },
+        Err(e) => CaseRes { counters: Counters::new(), nontrivial: false, result: vfail("C16", e), log: vec![format!("old {:?}", a), format!("new {:?}", b)], steps: 1 },
+    }
+}
